@@ -3470,7 +3470,19 @@ class StateEngine(object):
             The value of "ResultSelector" MUST be a Payload Template, whose
             input is the result, and whose payload replaces and becomes the
             effective result.
+
+            A failure of ResultSelector or ResultPath is a failure of the Map
+            or Parallel state itself, so its Retry must see the retries that
+            this state has already made, which were saved when it launched its
+            branches, not those of the last state of the branch.
             """
+            context_state.pop("RetryCount", None)
+            context_state.pop("RetryTimeout", None)
+            if retry_count:
+                context_state["RetryCount"] = retry_count
+            if retry_timeout:
+                context_state["RetryTimeout"] = retry_timeout
+
             try:
                 result = evaluate_payload_template(
                     result, context, state.get("ResultSelector")
